@@ -55,6 +55,10 @@ func FuzzC15Reader(f *testing.F) {
 	f.Add([]byte{0x7f, 0x7f, 0xff, 0xff, 0xff, 0xff, 0xff, 0xff, 0xff, 'a'}, uint32(0), uint32(1))
 	f.Add([]byte{0xff, 0, 0, 0, 1, 0, 0, 0, 0, 'a'}, uint32(0), uint32(1))
 	f.Add([]byte{0x7e, 0x00, 0x7f, 'a'}, uint32(7), uint32(0x41))
+	// the stream reports its end together with its last bytes; small bufio buffer, large application reads
+	f.Add(append([]byte{0x7e, 0x00, 0x40}, bytes.Repeat([]byte{'r'}, 40)...), uint32(0), uint32(1<<26|1<<4|5<<10))
+	f.Add(append([]byte{0x7e, 0x00, 0x40}, bytes.Repeat([]byte{'r'}, 40)...), uint32(0), uint32(1<<26|1<<4|5<<10|1))
+	f.Add([]byte{0x03, 'a', 'b', 'c'}, uint32(0), uint32(1<<26|4))
 	if fuzzWTS == nil {
 		fuzzWTS = NewWTServer()
 	}
@@ -87,6 +91,7 @@ func FuzzC15Reader(f *testing.F) {
 			cs.Consume = []int{-1, int((ctl >> 22) & 15), 0}
 		}
 		cs.ReadSize = []int{int((ctl>>10)&0x3f)*80 + 1}
+		cs.EndData = ctl&(1<<26) != 0
 		if viol, _ := runC15(cs, fuzzWTS); viol != "" {
 			t.Fatalf("%s\ncase: %v", viol, cs)
 		}
